@@ -45,6 +45,10 @@ func runC02(c *Ctx) {
 		c.Check("C02-R1", "insertMinedTx-updates-balance", ins.Pos(), bad == nil, "a success path of insertMinedTx skips updateMinedBalance")
 	}
 	// R2
+	// the conflict index must know every input of every unconfirmed transaction, wallet credit or not: removeDoubleSpends
+	// finds the transactions a confirmation invalidates only through it
+	checkPerIteration(c, "C02-R1", wtxFn(c, "C02-R1", "insertMemPoolTx"), "TxIn", "putRawUnminedInput", 1,
+		"an input of a newly seen unconfirmed transaction is not registered in the unconfirmed-spender index: when a conflicting transaction confirms, this one (and its descendants) survive")
 	checkConflictRemoval(c, "C02-R2")
 	// R3
 	rb := wtxFn(c, "C02-R3", "rollback")
@@ -123,6 +127,11 @@ func runC02(c *Ctx) {
 		c.Check("C02-R4", "disconnectBlock-reaches-Rollback", db.Pos(), p.reachSet(db)[roll], "wallet.disconnectBlock no longer reaches Store.Rollback")
 		checkCoupledRollback(c, "C02-R4")
 		c.Check("C02-R4", "Rollback-reaches-rollback", roll.Pos(), p.reachSet(roll)[p.Func("wtxmgr", "Store", "rollback")], "Store.Rollback no longer reaches rollback")
+		// ... on every success path: block records exist only for blocks that hold a wallet transaction, so no
+		// property of the block at `height` itself can justify skipping the walk over the blocks above it
+		bad := p.mustPassToSuccess(roll, nil, isCallNamed("rollback"), nil)
+		c.Check("C02-R4", "Rollback-always-runs-rollback", roll.Pos(), bad == nil,
+			"Store.Rollback can report success without running rollback (e.g. a shortcut on the block record at exactly the requested height): blocks above a wallet-empty height stay connected after a multi-block reorg")
 	}
 }
 
